@@ -154,11 +154,15 @@ func (a *Analyzer) Analyze(constructor any) (*ConstructorInfo, error) {
 
 	// Check cache first
 	a.mu.RLock()
-	if cached, ok := a.cache[cacheKey]; ok {
-		a.mu.RUnlock()
+	cached, ok := a.cache[cacheKey]
+	a.mu.RUnlock()
+	if ok && cached.Type == typ {
 		return cached, nil
 	}
-	a.mu.RUnlock()
+
+	// Functions created by reflect.MakeFunc share one code pointer across
+	// different signatures: never let such an entry answer for another type.
+	uncached := ok
 
 	// Perform analysis
 	info := &ConstructorInfo{
@@ -171,6 +175,9 @@ func (a *Analyzer) Analyze(constructor any) (*ConstructorInfo, error) {
 		info.InstanceValue = constructor
 		info.Parameters = []ParameterInfo{}
 		info.dependencies = []*Dependency{}
+		if uncached {
+			return info, nil
+		}
 		return a.cacheAndReturn(cacheKey, info)
 	}
 
@@ -189,6 +196,10 @@ func (a *Analyzer) Analyze(constructor any) (*ConstructorInfo, error) {
 
 	// Build dependencies
 	info.dependencies = a.buildDependencies(info)
+
+	if uncached {
+		return info, nil
+	}
 
 	return a.cacheAndReturn(cacheKey, info)
 }
